@@ -307,7 +307,13 @@ def check(ctx):
     for key in ('SSASimulator',):
         sl_ = simloop.SimLoop(ctx, key)
         pr_, n_ = simloop.event_race(sl_)
-        pr2_, n2_ = simloop.event_race_run(sl_)
+        try:
+            pr2_, n2_ = simloop.event_race_run(sl_)
+        except AnalysisError as e_:
+            # the scripted run cannot be evaluated on this source (a value the evaluator does not know decides the control flow): this
+            # rule gives no verdict - the path rules of the property do - and says so
+            ctx.note('R5.2-event-race %s: the scripted run was not evaluated (%s)' % (key, e_))
+            pr2_, n2_ = [], 0
         if pr_ is None:     # a pass is not evaluable in isolation (it reads locals carried between passes): the run decides
             pr_, n_ = [], 0
         ctx.ob('R5.2-event-race', key, not pr_ and not pr2_, sl_.where, RACE_WHAT % (n_, n2_), '; '.join((pr2_ + pr_)[:2]))
@@ -344,6 +350,15 @@ def check(ctx):
             k_ = '%s/%s' % (rule, key)
             seen_[k_] = seen_.get(k_, 0) + 1
             ctx.ob('R5.4-net-stoichiometry', k_ if seen_[k_] == 1 else '%s#%d' % (k_, seen_[k_]), ok, where, what, detail)
+    # ... and a 'general' stochastic propensity is its compiled expression: the translation builds the tree of the written formula and
+    # every node computes its operator (C02 R2.1 / R2.2) - re-emitted here
+    from . import c02
+    sub = SubCtx(ctx)
+    c02.check_nodes(sub)
+    c02.check_translation(sub)
+    for rule, key, ok, where, what, detail in sub.got:
+        if (rule == 'R2.1-node-semantics' and key.endswith('.evaluate')) or rule == 'R2.2-translation':
+            ctx.ob('R5.3-stochastic-rates', '%s/%s' % (rule, key), ok, where, what, detail)
     ctx.floor('R5.4-net-stoichiometry', 10)
     ctx.floor('R5.3-stochastic-rates', 42)
     ctx.floor('R5.1-primitive', 4)
